@@ -1,6 +1,6 @@
 (** C09 — Particles stay in the water inside the domain; the dead stay dead. *)
 From Coq Require Import ZArith QArith List Bool.
-From Ladim Require Import Base.Num Model.Tracker Proofs.TrackerProofs.
+From Ladim Require Import Base.Num Model.Sim Proofs.SimInvProofs Model.Tracker Proofs.TrackerProofs.
 Import ListNotations.
 Open Scope Q_scope.
 
@@ -60,6 +60,23 @@ Theorem C09_valid_cell_in_array : forall g x y, ingrid g x y = true ->
   (1 <= cellI g x <= (gi1 g - gi0 g) - 2 /\ 1 <= cellJ g y <= (gj1 g - gj0 g) - 2)%Z.
 Proof. exact ingrid_cell_bounds. Qed.
 Print Assumptions C09_valid_cell_in_array.
+
+(** T6 at system level: through the real step protocol (compactify, release, forcing, output, move, IBM —
+    Model/Sim.v), with the tracker's move fed by ARBITRARY candidates, any release schedule into sea cells
+    of the valid region, any forcing-derived variables and any IBM that does not move particles
+    horizontally: every particle of every output record is inside the valid region in a sea cell *)
+Theorem C09_every_record_in_water : forall (g : grid) (C : Type) cand release_at forcef cachef ibmf due N,
+  (forall n x, In x (release_at n) -> wet g (snd x)) ->
+  (forall n v, wet g v -> wet g (forcef n v)) ->
+  (forall n v v', wet g v -> ibmf n v = (v', true) -> wet g v') ->
+  Forall (fun r => Forall (fun x => wet g (snd x)) (Sim.rrows r))
+         (Sim.recs (Sim.cold_run (Q * Q * bool) C release_at forcef cachef (track_inst g C cand) ibmf due N)).
+Proof.
+  intros g C cand release_at forcef cachef ibmf due N Hrel Hforce Hibm.
+  exact (cold_records_satisfy (Q * Q * bool) C release_at forcef cachef (track_inst g C cand) ibmf due (wet g)
+           Hrel Hforce (track_inst_wet g C cand) Hibm N).
+Qed.
+Print Assumptions C09_every_record_in_water.
 
 (** non-vacuity: a 6x5 subgrid with an island; one particle pushed onto the island (cancelled),
     one out of the grid (killed), one NaN (killed), one moved *)
